@@ -211,6 +211,16 @@ def gen_case(rng, direction, opts=None):
                     dst[p] = (b"dst bytes of " + leaf.encode() + b"+", (1_600_000_000, 0))
                 states[p] = "sibling-" + where
             sib_pats.append(r3.pick([comps[lvl] + suffix, "*" + suffix, comps[lvl] + suffix + "/", comps[lvl][:1] + "*" + suffix]))
+    # a source that contributes NOTHING (emptied, or nothing but destination-only files) while the destination is
+    # populated: with --delete the plan is "delete everything that is not excluded", and a dry run says so
+    r6 = SplitMix.derive(rng.s, "empty-source", 0)
+    empty_source = opts.get("empty_source", True) and r6.chance(1, 14) and not clash_pats
+    if empty_source:
+        for pth in list(src):
+            if pth not in dst:
+                dst[pth] = (src[pth][0] + b"!", (1_600_000_000, 0))
+            states[pth] = "srcgone"
+            del src[pth]
     # exclude patterns drawn from the tree's own names
     pats = list(sib_pats) + clash_pats if opts.get("excludes", True) else []
     for _ in range(rng.pick([0, 0, 1, 1, 2, 3]) if opts.get("excludes", True) else 0):
@@ -242,13 +252,13 @@ def gen_case(rng, direction, opts=None):
             # about the patterns after it
             pats.append(rng.pick(["/", "//", ""]))
         pats.append(s)
-    flags = {"delete": rng.chance(1, 2) if opts.get("delete", True) else False, "excludes": pats, "jobs": rng.pick([1, 2, 4, 16]), "verbose": rng.chance(1, 4)}
+    flags = {"delete": (True if empty_source and opts.get("delete", True) else rng.chance(1, 2)) if opts.get("delete", True) else False, "excludes": pats, "jobs": rng.pick([1, 2, 4, 16]), "verbose": rng.chance(1, 4)}
     rootname = "dst"
     srcname = "src"
     if opts.get("hostile_roots", True) and rng.chance(1, 4):
         rootname = rng.pick(["dst root", "d'st", "dst$x", "dśt", "d*st", "dst\\n", "dst\nline"])
         srcname = rng.pick(["src root", "s'rc", "src", "s$rc"])
-    case = {"src": src, "dst": dst, "states": states, "flags": flags, "direction": direction, "dstname": rootname, "srcname": srcname, "dst_exists": bool(dst) or rng.chance(2, 3)}
+    case = {"src": src, "dst": dst, "states": states, "flags": flags, "direction": direction, "dstname": rootname, "srcname": srcname, "dst_exists": bool(dst) or rng.chance(2, 3), "empty_source": bool(empty_source)}
     # environment of the trees (drawn from a separate stream so the trees above stay what they were):
     #  - write-protected files on either side (mode 0444: still replaceable by rename, still deletable)
     #  - what an earlier interrupted or failed run leaves behind: `<path>.copia-tmp` beside a path, longer than
@@ -943,6 +953,10 @@ def _c15_worker(args):
             f0 = {p: x for p, x in dst0.items() if x.get("kind") == "f"}
             f2 = {p: x for p, x in dst2.items() if x.get("kind") == "f"}
             # what the real run performed == what the dry run printed
+            if rr.code != 0 and rd.code == 0 and ow.case.get("empty_source") and not any(st == "clash" for st in ow.case["states"].values()):
+                # nothing but deletes of ordinary files was announced, from this very state: a real run that refuses is
+                # not performing the actions the dry run printed
+                res["viol"].append(("C15|%s|real-run-refuses-what-the-dry-run-announced" % direction, dict(label, announced_deletes=len(dele), run=rr.brief())))
             if rr.code == 0:
                 performed_send = {p for p in f2 if (p not in f0 or not same_rec(f0[p], f2[p])) and not is_staging(p)}
                 performed_del = {p for p in f0 if p not in f2}
@@ -1029,6 +1043,9 @@ def c09_scenarios(rng=None):
     # the same two shapes with TMPDIR on another file system (a run that staged there would have to copy across)
     S["300K-over-older-tmpdir-on-another-fs"] = dict(S["300K-over-older"], envv="tmpdir-other-fs")
     S["four-files-delete-tmpdir-on-another-fs"] = dict(S["four-files-delete"], envv="tmpdir-other-fs")
+    # the same two shapes again, ended by SIGTERM / SIGINT instead of SIGKILL
+    S["300K-over-older-sigterm"] = dict(S["300K-over-older"])
+    S["700K-new-nested-sigint"] = dict(S["700K-new-nested"])
     k3m = (k700 * 5)[:3 * 1024 * 1024 + 5000]
     # a file that only GREW at its end (a log, a journal): the destination holds a 1.25 MiB strict prefix of the 3 MiB
     # source, and a second name for that old inode which is nobody's to touch; and the reverse, a file that shrank
@@ -1115,7 +1132,10 @@ def _c09_worker(args):
                 break
             restore()
             clear_traces(trace)
-            env = shim_env(ow.env(), log=trace, kill_at=k, kill_class="write")
+            # "killed" is SIGKILL in most sweeps; scenarios tagged -sigterm / -sigint get the signal `kill` and Ctrl-C
+            # send, raised at the same instants: a process that catches it and winds down owes the same guarantee
+            ksig = 15 if name.endswith("-sigterm") else (2 if name.endswith("-sigint") else None)
+            env = shim_env(ow.env(), log=trace, kill_at=k, kill_class="write", kill_sig=ksig)
             p = subprocess.Popen([COPIA] + ow.argv(), env=env, cwd=ow.home, stdin=subprocess.DEVNULL, stdout=subprocess.PIPE, stderr=subprocess.PIPE, start_new_session=True)
             try:
                 out, err = p.communicate(timeout=120)
